@@ -15,4 +15,5 @@ MODULES = [
     "contracts.cov",
     "contracts.fmt",
     "contracts.calculus",
+    "contracts.dobs",
 ]
